@@ -1,6 +1,7 @@
 import BoltonsVerif.Common
 import BoltonsVerif.C02.Model
 import BoltonsVerif.C02.LL
+import BoltonsVerif.C02.Reent
 /-
 C02 line protocol.  One line = one whole history over a small "world" of caches
 (cache 0 is constructed by the header, every `copy` appends a cache):
@@ -11,7 +12,10 @@ C02 line protocol.  One line = one whole history over a small "world" of caches
   (`LL.lean`: `hwstep`, the linked list with PREV / NEXT fields and the rotating anchor).  Both print the same text.
 
   on_miss `a,b` is the function k ↦ a*k+b; with `/ke/ve` (key lists `k.k.k` or `-`) it raises
-  KeyError for the keys in ke and ValueError for the keys in ve;  keys, values are naturals (value 0 stands for
+  KeyError for the keys in ke and ValueError for the keys in ve;  with `/ke/ve/prog/depth` it is RE-ENTRANT
+  (`Reent.lean`): `prog` = `k=op+op+…~k=op+…` gives, per key, the calls on_miss(k) makes on the cache it was
+  called from (op tokens as below with cache number 0) before it returns / raises as `a,b/ke/ve` say; `depth` is the
+  nesting depth at which the callback raises ValueError instead (the interpreter's fuel);  keys, values are naturals (value 0 stands for
   Python's None);  pairs are `k.v,k.v,...` (`-` = empty);  `i`,`j` are cache numbers.
     s:i:k:v      c[k] = v                 g:i:k        c[k]
     d:i:k        del c[k]                 G:i:k:v      c.get(k, v)
@@ -141,63 +145,93 @@ def logLenH (w : List H) (i : Nat) : Nat := match w[i]? with
 def recordH (nk : Nat) (res : String) (calls : List Nat) (w : List H) : String :=
   "|".intercalate (s!"{res}@{showNats calls}" :: w.map (dumpH nk))
 
+/-- `k=op+op~k=op…` -> the calls on_miss(k) makes, per key -/
+def parseProg? (s : String) : Option (List (Nat × List (Op Nat Nat))) :=
+  if s = "-" ∨ s = "" then some [] else
+  (splitOnChar s '~').foldr (fun w acc =>
+    match acc, splitOnChar w '=' with
+    | some l, [k, body] =>
+      match k.toNat? with
+      | none => none
+      | some k =>
+        let acts : Option (List (Op Nat Nat)) :=
+          if body = "-" ∨ body = "" then some [] else
+          (splitOnChar body '+').foldr (fun t acc =>
+            match acc, parseOp? 1 t with
+            | some l, some (.on _ op) => some (op :: l)
+            | _, _ => none) (some [])
+        acts.map fun a => (k, a) :: l
+    | _, _ => none) (some [])
+
+/-- the history loop, for any representation of the caches -/
+def loop {W : Type} (wlen : W → Nat) (wst : W → WOp Nat Nat → W × String) (logLen : W → Nat → Nat)
+    (callsOf : W → Nat → Nat → List Nat) (rec : String → List Nat → W → String) :
+    W → List String → List String → Option (List String)
+  | _, [], acc => some acc.reverse
+  | w, t :: ts, acc =>
+    match parseOp? (wlen w) t with
+    | none => none
+    | some op =>
+      let i := target op
+      let before := logLen w i
+      let (w', o) := wst w op
+      loop wlen wst logLen callsOf rec w' ts (rec o (callsOf w' i before) w' :: acc)
+
 def handle (line : String) : String :=
   match words line with
   | lru :: mx :: om :: nk :: init :: toks =>
-    let onMiss? : Option (Option (Nat → OmRes Nat)) :=
-      if om = "-" then some none else
+    let resOf (a b : Nat) (ke ve : List Nat) : Nat → OmRes Nat :=
+      fun k => if ke.contains k then .keyError else if ve.contains k then .error else .ret (a * k + b)
+    -- (on_miss as a function of the key, re-entrant part: programs and depth)
+    let onMiss? : Option (Option (Nat → OmRes Nat) × Option (List (Nat × List (Op Nat Nat)) × Nat)) :=
+      if om = "-" then some (none, none) else
       match splitOnChar om '/' with
       | [ab] =>
         match natList? ab with
-        | some [a, b] => some (some fun k => .ret (a * k + b))
+        | some [a, b] => some (some fun k => .ret (a * k + b), none)
         | _ => none
       | [ab, ke, ve] =>
         match natList? ab, natList? ke '.', natList? ve '.' with
-        | some [a, b], some ke, some ve =>
-          some (some fun k => if ke.contains k then .keyError else if ve.contains k then .error
-                              else .ret (a * k + b))
+        | some [a, b], some ke, some ve => some (some (resOf a b ke ve), none)
         | _, _, _ => none
+      | [ab, ke, ve, prog, depth] =>
+        match natList? ab, natList? ke '.', natList? ve '.', parseProg? prog, depth.toNat? with
+        | some [a, b], some ke, some ve, some prog, some depth => some (some (resOf a b ke ve), some (prog, depth))
+        | _, _, _, _, _ => none
       | _ => none
     match lru.toNat?, mx.toNat?, onMiss?, nk.toNat?, parsePairs? init with
-    | some lru, some mx, some onMiss, some nk, some init =>
+    | some lru, some mx, some (onMiss, re), some nk, some init =>
       if mx = 0 ∨ 3 < lru then "bad-op" else
+      -- the re-entrant on_miss as a program table
+      let P : Nat → OmProg Nat Nat := fun k =>
+        ⟨match re with
+          | some (prog, _) => (lookup k prog).getD []
+          | none => [],
+         match onMiss with
+          | some f => f k
+          | none => .keyError⟩
+      let showStep {X : Type} (r : List X × Out Nat Nat X) : List X × String := (r.1, showOut r.2)
       if 2 ≤ lru then
         -- the pointer-level model
         let h0 : H := (HCache.initP (lru = 3) mx onMiss).setAll init
-        let rec goH (w : List H) (toks : List String) (acc : List String) : Option (List String) :=
-          match toks with
-          | [] => some acc.reverse
-          | t :: ts =>
-            match parseOp? w.length t with
-            | none => none
-            | some op =>
-              let i := target op
-              let before := logLenH w i
-              let (w', o) := hwstep w op
-              let calls := match w'[i]? with
-                | some c => c.omLog.drop before
-                | none => []
-              goH w' ts (recordH nk (showOut o) calls w' :: acc)
-        match goH [h0] toks [recordH nk "-" [] [h0]] with
+        let wst : List H → WOp Nat Nat → List H × String := match re with
+          | some (_, depth) => fun w op => showStep (rhwstep P depth w op)
+          | none => fun w op => showStep (hwstep w op)
+        let callsOf (w : List H) (i before : Nat) : List Nat := match w[i]? with
+          | some c => c.omLog.drop before
+          | none => []
+        match loop List.length wst logLenH callsOf (recordH nk) [h0] toks [recordH nk "-" [] [h0]] with
         | some outs => ";".intercalate outs
         | none => "bad-op"
       else
       let c0 : C := (Cache.initP (lru = 1) mx onMiss).setAll init
-      let rec go (w : List C) (toks : List String) (acc : List String) : Option (List String) :=
-        match toks with
-        | [] => some acc.reverse
-        | t :: ts =>
-          match parseOp? w.length t with
-          | none => none
-          | some op =>
-            let i := target op
-            let before := logLen w i
-            let (w', o) := wstep w op
-            let calls := match w'[i]? with
-              | some c => c.omLog.drop before
-              | none => []
-            go w' ts (record nk (showOut o) calls w' :: acc)
-      match go [c0] toks [record nk "-" [] [c0]] with
+      let wst : List C → WOp Nat Nat → List C × String := match re with
+        | some (_, depth) => fun w op => showStep (rwstep P depth w op)
+        | none => fun w op => showStep (wstep w op)
+      let callsOf (w : List C) (i before : Nat) : List Nat := match w[i]? with
+        | some c => c.omLog.drop before
+        | none => []
+      match loop List.length wst logLen callsOf (record nk) [c0] toks [record nk "-" [] [c0]] with
       | some outs => ";".intercalate outs
       | none => "bad-op"
     | _, _, _, _, _ => "bad-op"
